@@ -81,6 +81,15 @@ Theorem C04_project_commands : forall (cf : cfg) (m : mode) (p : project),
   map fst (generate_project cf m p) = flat_map commands_of p.
 Proof. exact project_commands. Qed.
 
+(* histories of runs into one output directory: after EVERY run (forced or not, whatever came before) every
+   command has exactly the keys the CURRENT sources and settings demand *)
+Theorem C04_history_keys : forall h : list run_step,
+  (forall s, In s h -> project_dom (r_project s) = true) ->
+  forall s out, In (s, out) (combine h (run_history h)) ->
+  forall c r, In (c, r) out -> kf_any (r_cfg s) c = false ->
+  exists g l, r = Ok g /\ invoke_keys g = Some l /\ Permutation (kb_of l) (spec_keys (r_cfg s) c).
+Proof. exact history_keys_thm. Qed.
+
 (* since the guard, generation never panics: every command, configuration string and mode *)
 Theorem C04_never_panics : forall (cf : cfg) (m : mode) (c : cmd), exists g, generate cf m c = Ok g.
 Proof. exact never_panics. Qed.
@@ -157,6 +166,15 @@ Example C04_ex_project :
   = [ (L "start_download", Some [(L "url", false); (L "onProgress", false)]);
       (L "download", Some [(L "fileId", false); (L "destPath", true)]) ].
 Proof. exact ex_project_ok. Qed.
+Example C04_ex_history :
+  let x := {| r_cfg := cfg_default; r_mode := Zod; r_project := ex_project; r_force := false |} in
+  let y := {| r_cfg := {| default_case := L "snake_case" |}; r_mode := Zod; r_project := ex_project; r_force := true |} in
+  project_dom ex_project = true /\
+  map (map (fun cr => match snd cr with Ok g => option_map kb_of (invoke_keys g) | Panic => None end)) (run_history [x; y; x])
+  = [ [Some [(L "url", false); (L "onProgress", false)]; Some [(L "fileId", false); (L "destPath", true)]];
+      [Some [(L "url", false); (L "on_progress", false)]; Some [(L "file_id", false); (L "dest_path", true)]];
+      [Some [(L "url", false); (L "onProgress", false)]; Some [(L "fileId", false); (L "destPath", true)]] ].
+Proof. vm_compute. split; reflexivity. Qed.
 Example C04_ex_kinds : ty_dom (APath [] NState (Some [GLife; GType])) = true /\
   spec_kind (APath [] NState (Some [GLife; GType])) = KInjected /\ spec_kind (APath [] NState None) = KValue.
 Proof. vm_compute. auto. Qed.
@@ -171,6 +189,7 @@ Print Assumptions C04_modes_agree.
 Print Assumptions C04_zod_split.
 Print Assumptions C04_project_keys.
 Print Assumptions C04_project_commands.
+Print Assumptions C04_history_keys.
 Print Assumptions C04_never_panics.
 Print Assumptions C04_oracle_accepts.
 Print Assumptions C04_bare_window_refuted.
